@@ -35,11 +35,17 @@ THEOREMS = THEOREMS + PR.THEOREMS_C19_PRICES
 PARTIAL = ['coarse_partition covers [first cut, last cut), not the window: when the window is not a whole number of coarse steps AND ends inside the reference grid the implementation drops the fine steps after the last cut (known finding F-19b); a window that reaches beyond the reference grid loses nothing (coarse_partition_clipped)']
 COMPONENTS = ['grid (tick + supplied calendar points) vs Timegrid.__init__', 'restrict vs set_restricted_grid', 'coarsen vs the coarse branch', 'values_to_grid / implicit ends / prep_date_dict', 'prices pass-through']
 RULE = ('generated grids (5 zones, units h/d/min/s, tick frequencies + calendar d/MS/W, DST dates), restriction windows from a placement table, coarse multiples and non-multiples, coarse windows reaching beyond the reference grid (before the start, after the end, both; by whole coarse steps, by part of one, entirely outside), interval lists in all container forms incl. malformed; '
+        'stream cclip: coarse windows that outlive the reference grid whose end lies OFF the window\'s raster of coarse steps start + j*freq (window starting on a grid point / at the grid start / before it, reaching beyond by a part of a coarse step up to several; one in four with the end ON the raster as control; some with interval data on the coarse grid); '
+        'stream vcar: interval limits handed over as numpy datetime64 arrays / scalars of every resolution [D] [h] [m] [s] [ms] [us] [ns], lists of datetime / date / Timestamp / datetime64 / ISO strings, DatetimeIndex, Timestamps and object arrays of resolution s/ms/us/ns, aware and wall-clock, start and end in different containers, explicit and implicit ends, on plain, restricted and coarse grids; '
         'thorough: all windows on DST-night grids up to 48 steps; non-trivial = grid with more than one step built without error; distinct by case hash')
-ASSUMPTIONS = ['exact comparison when every dt is dyadic, 1e-9 relative otherwise']
+ASSUMPTIONS = ['exact comparison when every dt is dyadic, 1e-9 relative otherwise',
+               'coarse oracle: the raster of a coarse window is computed from the window alone (fixed-length frequencies: integer arithmetic on instants; calendar frequencies: pandas date_range, trusted base), never from the reference grid; a lost fine step INSIDE [first cut, last cut) is a violation of coarse_partition (/_clipped /_whole), one before the first or at / after the last cut is the remainder of known finding F-19b',
+               'stream vcar: the expected values are computed from the instants of the case (ISO wall-clock time + zone), never from the container handed to the code; the containers are built with explicit conversions (numpy arrays from integer counts of the resolution since the epoch), the limits being whole multiples of the resolution']
 MODELLED = ['pandas localisation of naive dates and calendar arithmetic (date_range for calendar frequencies): inputs of the model, produced with the same pandas calls the code makes; hypothesis CalendarOK evaluated on what pandas returned',
             'prices_to_grid: the construction of the frame from the user\'s container (DataFrame.from_dict, pd.to_datetime of the keys) is done by pandas on the harness side; the model starts at the frame (index + columns) and covers union, interpolation in time, selection and the error classes']
-EXPLANATION = 'theorems about the model of Timegrid / values_to_grid; correspondence and the C19 statements evaluated on the real objects'
+EXPLANATION = ('theorems about the model of Timegrid / values_to_grid; correspondence and the C19 statements evaluated on the real objects; '
+               'oracle grid.coarse_partition classifies every lost fine step of a coarse window against the window\'s own raster (kinds coarse_interval_lost / coarse_remainder / coarse_outside_window); '
+               'oracle grid.values_unique is evaluated for every container and time resolution of the interval limits (stream vcar)')
 
 
 def scenarios(seed, tier):
